@@ -36,11 +36,12 @@ MkInput(g, j) ==
    lat |-> [k \in DOMAIN g.ss |-> LatOf(g.ss[k])], lon |-> [k \in DOMAIN g.ss |-> LonOf(g.ss[k])],
    elev |-> [k \in DOMAIN g.ss |-> ElevOf(g.ss[k])],
    hasObs |-> g.hasObs,
-   \* extra fields (g.ex : field name -> missing positions, optional): values 3000 + 1000 k + 10000 j + Code for the k-th name
+   \* extra fields (g.ex : field name -> missing positions, optional): values 3000 + 1000 ((7 k) mod 11) + 10000 j + Code for the k-th name
+   \* of ExtraPool: all different, and the ensemble members e0, e1, e2 (9000, 5000, 12000) are NOT in increasing order
    extra |-> IF "ex" \in DOMAIN g
              THEN [f \in DOMAIN g.ex |-> [p \in Positions(g.ts, g.ls, g.ss) |->
                      IF p \in g.ex[f] THEN NaN
-                     ELSE R(3000 + 1000 * Cardinality({x \in DOMAIN g.ex : x \in ExtraOrderBefore(f)}) + 10000 * j + Code(g.ts[p[1]], g.ls[p[2]], g.ss[p[3]]))]]
+                     ELSE R(3000 + 1000 * ((7 * IndexIn(ExtraPool, f)) % 11) + 10000 * j + Code(g.ts[p[1]], g.ls[p[2]], g.ss[p[3]]))]]
              ELSE [f \in {} |-> <<>>],
    obs |-> [p \in Positions(g.ts, g.ls, g.ss) |->
               IF ~g.hasObs \/ p \in g.mo THEN NaN
